@@ -20,9 +20,17 @@ SP = 'thermosteam/base/sparse.py'
 IX = 'thermosteam/indexer.py'
 # frozen, one site each, with the reason the stored value cannot be zero although D-nz cannot see it
 NZ_EXCEPTIONS = {
-    ('sum_sparse_vectors', 'sum([1.0 for j in sets if i in j])'):
-        'i ranges over the union of the sets, so at least one set contains it and the count is >= 1',
+    # (function, regex on the stored expression)
+    ('sum_sparse_vectors', r'^sum\(\[1\.0 for (\w+) in \w+ if \w+ in \1\]\)$'):
+        'the key ranges over the union of the sets, so at least one set contains it and the count is >= 1',
 }
+
+
+def nz_exception(qual, expr):
+    for (fn, rx), why in NZ_EXCEPTIONS.items():
+        if fn == qual and re.match(rx, expr):
+            return why
+    return None
 OPS = ('add', 'sub', 'mul', 'truediv')
 KINDS = ('scalar', 'sparse', 'array')
 
@@ -75,8 +83,8 @@ def run(ctx):
                 d1.ok(f.qualname, 'NZ: ' + s.what, f, s.stmt)
             elif s.grade == NZS:
                 nzs.append(s)
-            elif (f.qualname, s.expr) in NZ_EXCEPTIONS:
-                d1.ok(f.qualname, 'frozen exception: %s -- %s' % (s.expr, NZ_EXCEPTIONS[(f.qualname, s.expr)]), f, s.stmt)
+            elif nz_exception(f.qualname, s.expr):
+                d1.ok(f.qualname, 'frozen exception: %s -- %s' % (s.expr, nz_exception(f.qualname, s.expr)), f, s.stmt)
             else:
                 d1.fail(f.qualname, 'maybe-zero', 'a possibly-zero value is stored into sparse storage: %s' % s.what, f, s.stmt)
         if nzs:
